@@ -186,6 +186,11 @@ func (f *Frame) instr(b *ssa.BasicBlock, ins ssa.Instruction, st *State) {
 			return
 		}
 		out := Val{Sort: "Iface", Term: g.fresh(f.name(x), "Iface"), Ptr: v.Ptr, GoT: x.Type()}
+		if n, ok := x.X.Type().(*types.Named); ok && n.Obj().Pkg() != nil && n.Obj().Pkg().Path()+"."+n.Obj().Name() == "github.com/cosmos/cosmos-sdk/store/prefix.Store" && v.Term != "" {
+			// a prefix store used through the KVStore interface keeps its prefix
+			g.useTheory("kv")
+			g.assume(fmt.Sprintf("(= (store_prefix %s) %s)", out.Term, v.Term))
+		}
 		if v.Ptr == nil && v.Term != "" {
 			// remember the boxed value
 			out.Tuple = []Val{v}
